@@ -7,7 +7,7 @@
    The model describes the code WITH repo_patches/C10-fix.patch. *)
 From Coq Require Import ZArith NArith List Bool Sorted Lia.
 Import ListNotations.
-From Verif Require Import Lib.Corr Lib.Storegw_Str Gen.C10 Model.C10 Proofs.C10 Proofs.C10_merge Proofs.C10_select.
+From Verif Require Import Lib.Corr Lib.Storegw_Str Gen.C10 Model.C10 Proofs.C10 Proofs.C10_merge Proofs.C10_select Proofs.C10_part.
 Open Scope Z_scope.
 
 (* Time filter: for every series whose chunks are ordered by start time (the TSDB index
@@ -70,6 +70,16 @@ Theorem C10_groups_good : forall idx ms, Forall coherent ms ->
   /\ (forall m, In m (dedup_matchers ms) -> exists g, In g gs /\ g_name g = m_name m).
 Proof. exact groups_good. Qed.
 Print Assumptions C10_groups_good.
+
+(* Gap-based partitioner (chunk and series range reads): for every list of ranges sorted by
+   start and every max gap, the partition terminates within its fuel, the parts' element
+   ranges are contiguous from 0 to the number of ranges, every part is non-empty, and every
+   requested range lies inside the [Start, End] of the part that holds it (the predicate
+   [parts_cover] that the check also evaluates on the implementation's own output). *)
+Theorem C10_partition_covers : forall g rs, StronglySorted by_start rs ->
+  exists ps, partition (length rs) g rs 0%nat = Some ps /\ parts_cover rs ps = true.
+Proof. exact partition_covers. Qed.
+Print Assumptions C10_partition_covers.
 
 (* The whole answer: selected series, each with exactly its chunks overlapping the range,
    series without such chunks dropped, external labels attached. *)
@@ -135,4 +145,12 @@ Proof.
   - intros s Hs. simpl in Hs.
     repeat (destruct Hs as [<-|Hs]; [simpl; repeat (constructor; [|repeat constructor; unfold cmin_of; simpl; lia]); constructor|]).
     contradiction.
+Qed.
+
+Example C10_partition_nonvacuous :
+  partition 4 10 [(0, 5); (3, 4); (14, 20); (40, 41)]%Z 0%nat = Some [(0, 20, 0, 3)%nat; (40, 41, 3, 4)%nat]%Z
+  /\ StronglySorted by_start [(0, 5); (3, 4); (14, 20); (40, 41)]%Z.
+Proof.
+  split; [vm_compute; reflexivity|].
+  repeat (constructor; [|repeat (constructor; [unfold by_start; simpl; lia|]); try constructor]); constructor.
 Qed.
